@@ -317,3 +317,47 @@ NOT_DECIDED = ('every other layout (CSR+CSC, InOut, Linear, InlineEdge, Morph-LC
                'the composition of the per-thread constructFrom calls over all threads (the node ranges partition the nodes: C13) and the allocation/readGraph driver; constructFrom for other instantiations than (uint32 data, v1) and (void, v2); partial files (nodeOffset/edgeOffset != 0).')
 ASSUMPTIONS = ['callbacks are deterministic; per-node edge count <= 2^20, numNodes <= 2^24 (size bounds)', 'the prefix-sum ghost array is defined by the instances edgeNum(n) produces (never written)', 'allocation calls dropped; LargeArray = plain arrays',
                'constructFrom: the FileGraph calls are inline stubs restating the proved FG_* contracts for a whole file, plus "the file index never decreases" (validity of the input file); divideByNode = assumed contract (C13); little-endian host']
+
+# ---- edge lookup: findEdge (linear) and findEdgeSortedByDst (binary search) ---------------------------------------------------------------
+# The std algorithms are stubs carrying the standard's effects in ghost-probe form (g_k = an arbitrary edge slot, never written):
+# find_if = first position satisfying the predicate (or last); lower_bound on a range partitioned w.r.t. `dst < N` (= sorted ascending by
+# destination, the documented precondition of findEdgeSortedByDst) = the partition point.  The destination array is a fresh object of
+# exactly numEdges entries, so reading slot numEdges (= edge_end of the last node) is a failed pointer obligation.
+LKP = '''
+struct CSRL { uint64_t numEdges; uint32_t* edgeDst; } lk;
+uint64_t g_k;           /* ghost probe: an arbitrary edge slot */
+uint64_t g_eb, g_ee;    /* edge_begin(N1) / edge_end(N1): CSR_raw_begin / CSR_raw_end */
+uint64_t nondet_u64(void);
+enum { OP_LT = 1, OP_LE, OP_GT, OP_GE, OP_EQ, OP_NE };
+static inline uint32_t dst_at(uint64_t e) { __CPROVER_assert(e < lk.numEdges, "getEdgeDst: edge slot inside the destination array"); return lk.edgeDst[e]; }
+static inline uint64_t std_find_if_dst(uint64_t b, uint64_t e, unsigned op, uint32_t N)
+{ __CPROVER_assert(op == OP_EQ, "findEdge: the predicate is `destination == N2`");
+  uint64_t p = nondet_u64(); __CPROVER_assume(b <= p && p <= e);
+  if (p < e) __CPROVER_assume(lk.edgeDst[p] == N);
+  if (b <= g_k && g_k < p) __CPROVER_assume(lk.edgeDst[g_k] != N);
+  return p; }
+static inline uint64_t std_lower_bound_dst(uint64_t b, uint64_t e, uint32_t N, unsigned op, uint32_t N_)
+{ __CPROVER_assert(op == OP_LT && N == N_, "findEdgeSortedByDst: lower_bound for N2 with the comparator `destination < N`");
+  uint64_t p = nondet_u64(); __CPROVER_assume(b <= p && p <= e);
+  if (p < e) __CPROVER_assume(!(lk.edgeDst[p] < N));
+  if (b <= g_k && g_k < e) __CPROVER_assume((g_k < p) == (lk.edgeDst[g_k] < N));      /* partition point of a range sorted by destination */
+  if (p < e && p <= g_k && g_k < e) __CPROVER_assume(lk.edgeDst[p] <= lk.edgeDst[g_k]);      /* the caller's precondition, for the two slots that matter: the range is sorted ascending by destination */
+  return p; }
+#define LK_PRE (lk.numEdges <= ((uint64_t)1 << 32) && __CPROVER_is_fresh(lk.edgeDst, lk.numEdges * sizeof(uint32_t)) && g_eb <= g_ee && g_ee <= lk.numEdges)
+#define LK_POST(r) (g_eb <= (r) && (r) <= g_ee && ((r) < g_ee ? lk.edgeDst[(r)] == N2 : !(g_eb <= g_k && g_k < g_ee && lk.edgeDst[g_k] == N2)))
+'''
+OPS = {'<': 'OP_LT', '<=': 'OP_LE', '>': 'OP_GT', '>=': 'OP_GE', '==': 'OP_EQ', '!=': 'OP_NE'}
+LK_LOWER = [rx(r'edge_begin\(N1\)', 'g_eb', 1, 1), rx(r'edge_end\(N1\)', 'g_ee', 1), rx(r'\bauto e\b', 'uint64_t e', 0),
+            rx(r'\[=\]\(edge_iterator e\) \{ return getEdgeDst\(e\) (==|!=|<=|>=|<|>) N2; \}', lambda m: '%s, N2' % OPS[m.group(1)], 0),
+            rx(r'\[=\]\(edge_iterator e, GraphNode N\) \{ return getEdgeDst\(e\) (==|!=|<=|>=|<|>) N; \}', lambda m: '%s, N2' % OPS[m.group(1)], 0),
+            rx(r'std::find_if\(', 'std_find_if_dst(', 0), rx(r'std::lower_bound\(', 'std_lower_bound_dst(', 0), rx(r'getEdgeDst\(', 'dst_at(', 0)]
+UNITS.append(Unit(
+    name='CSR_findEdge', src=CSR, within=WITHIN, anchor=r'edge_iterator findEdge\(GraphNode N1, GraphNode N2\)', proto='uint64_t CSR_findEdge(uint32_t N1, uint32_t N2)',
+    contract='__CPROVER_requires(LK_PRE)\n__CPROVER_ensures(LK_POST(__CPROVER_return_value))\n__CPROVER_assigns()',
+    prelude=[LKP], lower=LK_LOWER, no_flags=['--conversion-check'],
+    says='findEdge(N1, N2): a slot of N1\'s edge range whose destination is N2, or edge_end(N1) exactly when no slot of the range (ghost probe) has that destination; std::find_if = the standard\'s contract (trusted)'))
+UNITS.append(Unit(
+    name='CSR_findEdgeSortedByDst', src=CSR, within=WITHIN, anchor=r'edge_iterator findEdgeSortedByDst\(GraphNode N1, GraphNode N2\)', proto='uint64_t CSR_findEdgeSortedByDst(uint32_t N1, uint32_t N2)',
+    contract='__CPROVER_requires(LK_PRE)\n__CPROVER_ensures(LK_POST(__CPROVER_return_value))\n__CPROVER_assigns()',
+    prelude=[LKP], lower=LK_LOWER, no_flags=['--conversion-check'], replay=dict(prog='csr_find_sorted_last', args=[], lib=True),
+    says='findEdgeSortedByDst(N1, N2) on a range sorted by destination: same answer as findEdge, and every destination read lies inside the destination array -- also when the partition point is edge_end(N1) and N1 is the last node with edges (slot numEdges does not exist); std::lower_bound = the standard\'s contract (trusted)'))
